@@ -311,8 +311,12 @@ def run(ctx, eng):
                'e.error_code on, and no broader handler intercepts the '
                'exception before it')
     cm.include(ctx, eng, 'C04',
-               lambda o: o.rule == 'FLOW.delta' and
-               o.where.endswith('_inbound_flow_control_change_from_settings'),
+               lambda o: (o.rule == 'FLOW.delta' and o.where.endswith(
+                   '_inbound_flow_control_change_from_settings')) or (
+                   # ... and refuses nothing else: an in-range value that
+                   # takes a window below zero is accepted
+                   o.rule == 'ARITH.open' and
+                   o.desc.startswith('overflow iff')),
                'a locally requested INITIAL_WINDOW_SIZE reaches each stream '
                'window through window_opened, whose overflow guard makes the '
                '2^31-1 violation a FLOW_CONTROL_ERROR')
